@@ -15,17 +15,11 @@
 #define NG (ROTMAX + 3)
 #include "C29_rec.h"
 static struct S_class_2eFIX8_3a_3aFileLogger the_fl;
+uint32_t cx_ex0[2]; /* bit k: generation k existed before (family 0 / 1) */
 uint32_t cx_rotnum, cx_flags; uint8_t cx_force;
 static int opened;
 uint32_t x_rename(uint8_t *from, uint8_t *to) { return rec_rename(from, to); }
 void vf_ofs_opened(uint8_t *path, uint32_t mode) { opened++; VF_ASSERT(gen_of(0, path) == 0, "C29: the log file opened after rotation is the configured path"); }
-/* std::vector<std::string>::operator[] with its precondition checked (same result as the header code) */
-void *st_vecstr_at(void *v, uint64_t i)
-{
-  uint8_t **p = (uint8_t**)v; uint64_t n = (uint64_t)(p[1] - p[0]) / sizeof(struct S_class_2estd_3a_3a__cxx11_3a_3abasic_string);
-  __CPROVER_assert(i < n, "C29: every vector index is inside the vector (rotation bookkeeping)"); __CPROVER_assume(i < n);
-  return p[0] + sizeof(struct S_class_2estd_3a_3a__cxx11_3a_3abasic_string) * i;
-}
 int main(void)
 {
   uint32_t cap = vf_max_rotation(), APPEND = vf_flag_append(), COMPRESS = vf_flag_compress();
@@ -35,13 +29,22 @@ int main(void)
   uint32_t rotnum = nondet_u32(); VF_ASSUME(rotnum <= ROTMAX);
 #endif
   uint32_t flags = nondet_u32(); VF_ASSUME((flags & ~(APPEND | COMPRESS)) == 0);
-#ifdef NO_COMPRESS
-  VF_ASSUME(!(flags & COMPRESS));
+  /* the compress flag only changes the generation names (name.k.gz; this build never defines HAVE_COMPRESSION, so the live
+     file stays `name`): case split by define so that every path name is a constant string */
+#ifdef COMPRESSED
+  VF_ASSUME(flags & COMPRESS); flags |= COMPRESS;
+#else
+  VF_ASSUME(!(flags & COMPRESS)); flags &= ~COMPRESS;
 #endif
   uint8_t force = nondet_bool();
   cx_rotnum = rotnum; cx_flags = flags; cx_force = force;
-  rec_base[0] = "l"; rec_suffix[0] = (flags & COMPRESS) ? ".gz" : "";
+#ifdef COMPRESSED
+  rec_base[0] = "l"; rec_suffix[0] = ".gz"; rec_sfx0[0] = 0;
+#else
+  rec_base[0] = "l"; rec_suffix[0] = ""; rec_sfx0[0] = 1;
+#endif
   rec_init();
+  for (int f = 0; f < NFAM; f++) for (int g = 0; g < NG && g < 32; g++) if (g_ex0[f][g]) cx_ex0[f] |= 1u << g;
   vf_fl_setup(&the_fl, (uint8_t*)"l", 1, flags, rotnum);
   uint8_t ok = vf_fl_rotate(&the_fl, force) & 1;
   VF_ASSERT(ok && !__vf_exc_pending, "C29: rotate succeeds"); __vf_exc_pending = 0;
